@@ -127,6 +127,66 @@ let kws_of s = if s = "-" || s = "" then [] else
     | _ -> failwith "kw") (String.split_on_char ',' s)
 let show_src = function SPos i -> "P" ^ string_of_int (int_of_nat i) | SKw j -> "K" ^ string_of_int (int_of_nat j) | SUninit -> "U"
 
+
+(* declarations *)
+let us u = "[" ^ field_of_ustr u ^ "]"
+let usl l = "{" ^ String.concat "," (List.map us l) ^ "}"
+let b01 b = if b then "1" else "0"
+let show_ptr p = "P(" ^ us p.p_ptr ^ b01 p.p_const ^ b01 p.p_volatile ^ ")"
+let rec show_dtor = function
+  | None -> "None"
+  | Some (Dtor (ps, name, func)) ->
+      "T(" ^ String.concat "" (List.map show_ptr ps) ^ ";" ^ (match name with None -> "None" | Some n -> us n) ^ ";" ^ show_dtor func ^ ")"
+let rec strip0 = function c :: (_ :: _ as r) when int_of_n c = 48 -> strip0 r | l -> l
+let show_av = function
+  | AVTrue -> "T" | AVStr v -> "S" ^ us v | AVInt v -> "I" ^ us (strip0 v) | AVReal v -> "R" ^ us v | AVNone -> "N"
+let rec show_decl (Decl (spec, storage, c, v, tm, dt, params, arr, attrs, init, targs, fc)) =
+  "D(" ^ usl spec ^ ";" ^ usl storage ^ ";" ^ b01 c ^ b01 v ^ ";" ^ us tm ^ ";" ^ show_dtor dt ^ ";" ^
+  (match params with None -> "None" | Some ps -> "<" ^ String.concat "," (List.map show_decl ps) ^ ">") ^ ";" ^
+  "<" ^ String.concat "," (List.map show_expr arr) ^ ">;" ^
+  "<" ^ String.concat "," (List.map (fun (k, v) -> us k ^ "=" ^ show_av v) attrs) ^ ">;" ^ show_av init ^ ";" ^
+  "<" ^ String.concat "," (List.map show_decl targs) ^ ">;" ^ b01 fc ^ ")"
+let rec show_stmt = function
+  | SDecl d -> show_decl d
+  | SClass (n, bases) -> "C(" ^ us n ^ ";" ^ String.concat "," (List.map (fun (a, b) -> us a ^ us b) bases) ^ ")"
+  | SNamespace n -> "NS(" ^ us n ^ ")"
+  | STemplate (ps, body) -> "TP(" ^ usl ps ^ ";" ^ show_stmt body ^ ")"
+  | SStruct (n, ms) -> "ST(" ^ us n ^ ";" ^ String.concat "," (List.map show_decl ms) ^ ")"
+  | SEnum e -> "E(" ^ us e.en_name ^ ";" ^ (match e.en_scope with None -> "-" | Some s -> us s) ^ ";" ^ show_members e.en_members ^ ")"
+
+(* context: a flat list of ints.  name := len cp* ; sym := id kind tmtag [name] nmem (name sym)* *)
+let ctx_of_field s =
+  let a = Array.of_list (if s = "" then [] else List.map int_of_string (String.split_on_char ' ' s)) in
+  let i = ref 0 in
+  let nx () = let v = a.(!i) in incr i; v in
+  let name () = let n = nx () in List.init n (fun _ -> n_of_int (nx ())) in
+  let rec sym () =
+    let id = nx () in
+    let kind = (match nx () with 0 -> KScope | 1 -> KLeaf | _ -> KParam) in
+    let tm = (match nx () with 0 -> TmMissing | 1 -> TmNone | _ -> TmName (name ())) in
+    let n = nx () in
+    let mem = List.init n (fun _ -> let k = name () in let v = sym () in (k, v)) in
+    Sym (nat_of_int id, kind, tm, mem) in
+  let cur = nx () in
+  let isc = nx () <> 0 in
+  let cname = name () in
+  let n = nx () in
+  let sc = List.init n (fun _ -> let k = name () in let v = sym () in (k, v)) in
+  let m = nx () in
+  let known = List.init m (fun _ -> name ()) in
+  { cur_id = nat_of_int cur; cur_is_class = isc; cur_name = cname; scope = sc; known_types = known }
+
+let aenv_of_field s =
+  let a = Array.of_list (if s = "" then [] else List.map int_of_string (String.split_on_char ' ' s)) in
+  let i = ref 0 in
+  let nx () = let v = a.(!i) in incr i; v in
+  let name () = let n = nx () in List.init n (fun _ -> n_of_int (nx ())) in
+  let n = nx () in
+  let tms = List.init n (fun _ -> let k = name () in let b = name () in let g = name () in (k, (b, g))) in
+  let m = nx () in
+  let pats = List.init m (fun _ -> name ()) in
+  { tminfo = tms; patterns = pats }
+
 let handle fields =
   match fields with
   | ["wc"; ll; ind; sp; ct; line] ->
@@ -203,6 +263,8 @@ let handle fields =
       let t = List.map ints (String.split_on_char ';' tbl) in
       let n = List.length t in
       String.concat " " (List.map (fun k -> string_of_int (int_of_nat k)) (gather (nat_of_int (n + 2)) t (ints roots)))
+  | ["verify"; c; e; k; s] -> show_result (fun () -> "") (parse_and_verify (ctx_of_field c) (aenv_of_field e) (k = "var") (ustr_of_field s))
+  | ["decl"; c; s] -> show_result show_stmt (parse_statement (ctx_of_field c) (ustr_of_field s))
   | ["lstrip"; s] -> field_of_ustr (lstrip (ustr_of_field s))
   | ["rstrip"; s] -> field_of_ustr (rstrip (ustr_of_field s))
   | _ -> "BADCMD"
